@@ -144,6 +144,7 @@ func c12Tie(r *Result, seqs []c12Seq, suite string) {
 		r.Violate(Violation{Kind: "correspondence", Suite: suite, Note: err.Error()})
 		return
 	}
+	reals := c12ExecAll(seqs)
 	for i, s := range seqs {
 		k := c12KindByName(s.Kind)
 		var lean []c12LeanObs
@@ -151,7 +152,7 @@ func c12Tie(r *Result, seqs []c12Seq, suite string) {
 			r.Violate(Violation{Kind: "correspondence", Suite: suite, Input: s, Observed: string(outs[i]), Note: "model rejected the sequence: " + err.Error()})
 			continue
 		}
-		real := c12Exec(s)
+		real := reals[i]
 		r.Case(suite, canon(s), c12SeqNontrivial(s))
 		c12Branches(r, s)
 		for step := range s.Ops {
@@ -176,7 +177,7 @@ func c12Tie(r *Result, seqs []c12Seq, suite string) {
 func init() {
 	register("C12", func(r *Result, rng *rand.Rand, tier string) {
 		defer c12Timed("tie")()
-		n := 3000
+		n := 4000
 		if tier == "thorough" {
 			n = 70000
 		} else if tier == "search" {
